@@ -313,7 +313,8 @@ func c08(c *Ctx) {
 }
 
 var faultModes = []string{"bytes, then the error on every later Read", "the last bytes together with the error, then EOF", "the last bytes together with the error, the error again later", "the error once, then EOF",
-	"bytes, then io.ErrUnexpectedEOF on every later Read", "io.ErrUnexpectedEOF once, then EOF"}
+	"bytes, then io.ErrUnexpectedEOF on every later Read", "io.ErrUnexpectedEOF once, then EOF",
+	"bytes, then an error reading \"invalid char escape\" on every later Read", "an error reading \"invalid char escape\" once, then EOF"}
 
 func isWordTok(t string) bool {
 	ch := t[0]
